@@ -20,6 +20,14 @@ struct G {
     r: Rng,
     serial: u64,
     rid: u64,
+    /// the root staged by the last accepted AddTrustedRootCertificate (so that AddNOC mostly matches)
+    staged: u64,
+    /// crash points strictly inside the two writes of an acknowledged CommissioningComplete
+    /// (open finding C08-complete-not-atomic: exercised from the corpus only)
+    forbidden_crash: Vec<u64>,
+    /// a fabric-scoped write was deferred under a CASE-armed fail-safe (open finding
+    /// C08-context-switch: AddNOC in the same context is then left to the corpus)
+    deferred_case_write: bool,
     /// weights that differ between the three properties
     prop: &'static str,
 }
@@ -85,7 +93,7 @@ impl G {
                 if noc_done {
                     // finish over CASE on the fail-safe's fabric
                     if let Some(s) = self.sess_where(v, |s| s.1 == 'c' && s.2 == fab && !s.3) {
-                        if self.r.chance(1, 4) {
+                        if self.r.chance(1, 4) || v.fault_pending {
                             return self.write_op(s);
                         }
                         return format!("complete {}", s);
@@ -100,7 +108,7 @@ impl G {
                     return format!("cest {} {} {}", fab, self.node(), self.next_rid());
                 };
                 let is_case = v.sessions.iter().any(|x| x.0 == s && x.1 == 'c');
-                if is_case && self.r.chance(2, 3) && flags & (F_ADD_CSR | F_ROOT) == 0 {
+                if is_case && (self.r.chance(2, 3) || self.deferred_case_write) && flags & (F_ADD_CSR | F_ROOT) == 0 {
                     // UpdateNOC flow, or plain network / ACL work under the fail-safe
                     if flags & F_UPD_CSR == 0 {
                         if self.r.chance(1, 3) {
@@ -119,8 +127,8 @@ impl G {
                 if flags & F_ROOT == 0 {
                     return format!("root {} {}", s, self.r.range(1, 3));
                 }
-                let ca = self.r.range(1, 3);
-                format!("addnoc {} {} {} {} {} {}", s, ca, self.r.range(1, 2), self.r.range(10, 12), self.node(), self.next_serial())
+                let ca = if self.staged != 0 && !self.r.chance(1, 6) { self.staged } else { self.r.range(1, 3) };
+                format!("addnoc {} {} {} {} {} {}", s, ca, self.r.range(1, 3), self.r.range(10, 12), self.node(), self.next_serial())
             }
         }
     }
@@ -148,7 +156,13 @@ impl G {
             17..=19 => format!("updnoc {} {} {}", s, self.node(), self.next_serial()),
             20..=27 => self.write_op(s),
             28..=29 => format!("rmnet {} {}", s, self.r.range(1, 3)),
-            30..=34 => format!("complete {}", s),
+            30..=34 => {
+                if v.fault_pending {
+                    "poll".into()
+                } else {
+                    format!("complete {}", s)
+                }
+            }
             35..=40 => {
                 let idx = if v.fabrics.is_empty() || self.r.chance(1, 6) { self.r.range(0, 3) as u8 } else { *self.r.pick(&v.fabrics) };
                 format!("rmfab {} {}", s, idx)
@@ -178,7 +192,12 @@ impl G {
             }
             93..=95 => {
                 if c11 || self.r.chance(1, 3) {
-                    format!("crash {}", self.r.range(0, v.kvlen as u64))
+                    let n = self.r.range(0, v.kvlen as u64);
+                    if self.forbidden_crash.contains(&n) {
+                        "restart".into()
+                    } else {
+                        format!("crash {}", n)
+                    }
                 } else {
                     "restart".into()
                 }
@@ -202,7 +221,7 @@ impl G {
 }
 
 fn gen_case(out: &mut Out, cas: &Rc<Vec<Ca>>, id: u64, seed_rng: &mut Rng, prop: &'static str, len: usize) {
-    let mut g = G { r: seed_rng.fork(), serial: 0, rid: 0, prop };
+    let mut g = G { r: seed_rng.fork(), serial: 0, rid: 0, staged: 0, forbidden_crash: Vec::new(), deferred_case_write: false, prop };
     out.case(id, &header());
     let mut w = World::new(cas.clone());
     // how eager this case is to make progress (some cases are mostly noise)
@@ -220,6 +239,27 @@ fn gen_case(out: &mut Out, cas: &Rc<Vec<Ca>>, id: u64, seed_rng: &mut Rng, prop:
         let head = res.split(' ').next().unwrap_or("");
         let after = w.view();
         let kind = op.split(' ').next().unwrap_or("");
+        if kind == "root" && head == "ok" {
+            g.staged = op.split(' ').nth(2).and_then(|x| x.parse().ok()).unwrap_or(0);
+        }
+        if kind == "complete" && head == "ok" && after.kvlen == before.kvlen + 2 {
+            g.forbidden_crash.push(before.kvlen as u64 + 1);
+        }
+        if ["crash", "corrupt"].contains(&kind) {
+            // the store history was cut: later mutation numbers differ
+            let k = after.kvlen as u64;
+            g.forbidden_crash.retain(|n| *n < k);
+        }
+        if after.armed.is_none() {
+            g.deferred_case_write = false;
+        } else if ["acl", "grp", "label"].contains(&kind) && head == "ok" {
+            let sid: u32 = op.split(' ').nth(1).and_then(|x| x.parse().ok()).unwrap_or(0);
+            if let (Some((fab, flags)), Some(sess)) = (before.armed, before.sessions.iter().find(|x| x.0 == sid)) {
+                if sess.1 == 'c' && sess.2 == fab && flags & (F_ADD_NOC | F_UPD_NOC) == 0 {
+                    g.deferred_case_write = true;
+                }
+            }
+        }
         if kind == "arm" && head == "ok" && after.armed.is_some() {
             nt_arm = true;
         }
